@@ -253,7 +253,7 @@ def _run_schemas(case, ctx):
         except BaseException as e:  # noqa: BLE001
             if behave._is_ctl(e):
                 raise
-            ctx.skip("import_failed")
+            ctx.violation("package.imports", {"exc": type(e).__name__}, repr(e)[:300])   # the documents are in the domain: a package that cannot be imported decides the property negatively
             return
         with pa, pb:
             ma, mb = pa.models, pb.models
